@@ -30,7 +30,7 @@ def blob_value(text, attrs):
     if text is None:
         return ("EMPTY", fmt)
     try:
-        raw = base64.b64decode(text, validate=True)
+        raw = base64.b64decode("".join(text.split()), validate=True)  # line wrapping inside the payload is legal
         declared = int(attrs.get("size"))
     except Exception:
         return ("ANY",)  # undecodable payload / non-numeric size: the element may keep its value or not
